@@ -21,6 +21,7 @@ func init() {
 		ruleStaging("E-stage"), ruleDecFirst("M-dec-first"), ruleSoft("G-soft"), ruleOptZero("G-optzero"), ruleProvenance("T-provenance"), ruleSameInstance("T-same-instance"), ruleNoEarlyExit("L-no-early-exit"), ruleMissingPredicate("G-missing"),
 		ruleAcyclicView("M-acyclic-view"), ruleFlagSound("G-flag"), ruleAcyclicProvide("M-acyclic-provide"), ruleCycleErr("W-cycleerr"), ruleOrders("X-orders"), ruleDFS("G-dfs"),
 		ruleK1("K1"), ruleK2("K2"), ruleK3("K3"), ruleDupKey("G-dupkey"), ruleVisitExtract("X-visit-extract"),
-		ruleUnwrap("X-unwrap"), ruleForeignCause("T-foreign-cause"), ruleAtomProvide("E-ATOM"), ruleAtomDecorate("E-ATOM"), ruleWOwners("W-owners"),
+		ruleUnwrap("X-unwrap"), ruleForeignCause("T-foreign-cause"),
+		ruleP1("P1"), ruleRefl("E-REFL"), ruleAtomProvide("E-ATOM"), ruleAtomDecorate("E-ATOM"), ruleWOwners("W-owners"),
 	}})
 }
